@@ -99,7 +99,8 @@ def check(model, rep, tier):
   # ---------------------------------------------------------------- CALL-FAITHFUL
   for i, v in actions.items():
     for k, c in v:
-      site = '%s:%s(%s)' % (cc.site, k, core.norm(c)[:50])
+      site = '%s:%s(%s)' % (cc.site, k, core.norm(c)[:50] if k != 'recurse'
+                            else 'converted_call(f.func, ...)')
       a = [core.norm(x) for x in c.args]
       if k in ('unconverted', 'fallback'):
         ok = a[:3] == ['f', 'args', 'kwargs'] and a[3:4] == ['options']
@@ -109,7 +110,9 @@ def check(model, rep, tier):
                   witness='a bound method: self would be prepended twice / the '
                   'wrong object cached')
       elif k == 'recurse':
-        ok = a[:1] == ['f.func'] and a[1:3] == ['new_args', 'new_kwargs']
+        # (what the two merged arguments are is decided by CALL-PARTIAL)
+        ok = a[:1] == ['f.func'] and len(c.args) == 3 and all(
+            isinstance(x, ast.Name) for x in c.args[1:3])
         kw = {x.arg: core.norm(x.value) for x in c.keywords}
         ok = ok and kw.get('caller_fn_scope') == 'caller_fn_scope' and \
             kw.get('options') == 'options'
@@ -168,24 +171,31 @@ def check(model, rep, tier):
         rep.violation('CALL-FAITHFUL', site, 'unexpected derivation of the '
                       'arguments passed to the converted function', line=n.lineno)
   # _call_unconverted body
-  rets = [r for r in ast.walk(cu.node) if isinstance(r, ast.Return)]
+  def kw_atom(e):
+    t = core.norm(e)
+    if t == 'kwargs is None':
+      return 'KW_NONE'
+    if t == 'kwargs':
+      return 'KW_TRUTHY'
+    return None
+  KWN, KWT = formula.atom('KW_NONE'), formula.atom('KW_TRUTHY')
   shapes = []
-  for r in rets:
-    c = r.value
-    if isinstance(c, ast.Call) and core.norm(c.func) == 'f':
-      st = [core.norm(x.value) for x in c.args if isinstance(x, ast.Starred)]
-      kws = [core.norm(x.value) for x in c.keywords if x.arg is None]
-      plain = [x for x in c.args if not isinstance(x, ast.Starred)] + [
-          x for x in c.keywords if x.arg is not None]
-      shapes.append((tuple(st), tuple(kws), len(plain)))
+  ok = True
+  for f_, v in formula.return_cases(cu.node, formula.expanding(cu.node, kw_atom)):
+    t = core.norm(v) if v is not None else None
+    shapes.append((str(f_), t))
+    if t == 'f(*args, **kwargs)':
+      # only when kwargs is a mapping
+      ok = ok and formula.implies(f_, ~KWN | KWT, assume=~(KWN & KWT))[0] and \
+          not formula.satisfiable(f_ & KWN & ~KWT)
+    elif t == 'f(*args)':
+      # only when no keyword can be lost
+      ok = ok and not formula.satisfiable(f_ & ~KWN & KWT) and (
+          formula.implies(f_, KWN | ~KWT)[0])
     else:
-      shapes.append(('?', core.norm(r)))
-  ok = sorted(shapes) == sorted([(('args',), ('kwargs',), 0), (('args',), (), 0)])
+      ok = False
+  ok = ok and len(shapes) >= 2
   gk = None
-  for i in ast.walk(cu.node):
-    if isinstance(i, ast.If) and any(isinstance(x, ast.Return) for x in i.body):
-      gk = core.norm(i.test)
-  ok = ok and gk in ('kwargs is not None', 'kwargs')
   rep.check(ok, 'CALL-FAITHFUL', '%s:forwarding' % cu.site,
             '_call_unconverted must return f(*args, **kwargs) when kwargs is '
             'given and f(*args) otherwise', {'returns': shapes, 'guard': gk},
@@ -443,7 +453,13 @@ def check(model, rep, tier):
             {'min_max': rng}, line=fb.node.lineno)
   warn = [c for c in ast.walk(fb.node) if isinstance(c, ast.Call) and
           core.dotted(c.func) == 'logging.warning']
-  rep.check(len(warn) >= 3, 'CALL-FALLBACK', '%s:warns' % fb.site,
+  # a warning on every path except: source not inspectable and inspection is not
+  # supported; unsupported element already in the negative cache
+  gw = pycfg.CFG(fb.node)
+  ww = {i: 1 for i in range(len(gw.nodes)) if any(
+      core.dotted(c.func) == 'logging.warning' for c in pycfg.calls_at(gw, i))}
+  wr = gw.count_range(ww, skip_labels=())
+  rep.check(len(warn) >= 1 and wr is not None and wr[1] == 1, 'CALL-FALLBACK', '%s:warns' % fb.site,
             'the fallback must warn (three failure classes)', {'warnings': len(warn)},
             line=fb.node.lineno, nontrivial=False)
   # every branch of the if/elif/else chain warns (possibly under a condition)
@@ -473,43 +489,56 @@ def check(model, rep, tier):
   rec = [c for v in actions.values() for k, c in v if k == 'recurse']
   if len(rec) != 1:
     raise core.AnalysisError('converted_call: partial recursion not found')
-  rd = tpl.rdefs(cc.node)
-  na = rd.reaching(rec[0], 'new_args') or []
-  ok = len(na) == 1 and not isinstance(na[0], tuple) and core.norm(na[0]) == \
-      'f.args + args'
-  rep.check(ok, 'CALL-PARTIAL', '%s:positional-order' % cc.site,
+  rc = rec[0]
+  a1 = tpl.xnorm(cc, rc.args[1], rc) if len(rc.args) > 1 else None
+  rep.check(a1 == 'f.args + args', 'CALL-PARTIAL', '%s:positional-order' % cc.site,
             'stored positionals of the partial must come before call-site ones',
-            {'new_args': [core.norm(x) if not isinstance(x, tuple) else str(x[0])
-                          for x in na]}, line=rec[0].lineno)
-  upd = [c for c in ast.walk(cc.node) if isinstance(c, ast.Call) and
-         core.norm(c.func) == 'new_kwargs.update']
-  ok = len(upd) == 1 and [core.norm(a) for a in upd[0].args] == ['kwargs']
-  fresh = True
-  defs = []
+            {'positional_argument': a1}, line=rc.lineno)
+  kname = rc.args[2].id if len(rc.args) > 2 and isinstance(rc.args[2], ast.Name) else None
+  FRESH = ('f.keywords.copy()', 'dict(f.keywords)', 'dict(**f.keywords)', '{}', 'dict()')
+
+  def alternatives(e):
+    if isinstance(e, ast.IfExp):
+      return alternatives(e.body) + alternatives(e.orelse)
+    return [e]
+  defs = [a for a in core.walk_no_nested(cc.node) if isinstance(a, ast.Assign) and
+          kname is not None and any(isinstance(t, ast.Name) and t.id == kname
+                                    for t in a.targets)]
+  alts = [core.norm(x) for d in defs for x in alternatives(d.value)]
+  upd = [c for c in core.walk_no_nested(cc.node) if isinstance(c, ast.Call) and
+         kname is not None and core.norm(c.func) == kname + '.update']
+  g_cc = pycfg.CFG(cc.node)
+
+  def nid(x):
+    for i in range(len(g_cc.nodes)):
+      if g_cc.nodes[i][1] is not None and any(
+          y is x for e in g_cc.exprs_of(i) for y in ast.walk(e)):
+        return i
+    return None
+  ok = kname is not None and bool(defs) and all(t in FRESH for t in alts) and \
+      len(upd) == 1 and [core.norm(a) for a in upd[0].args] == ['kwargs']
   if ok:
-    defs = rd.reaching(upd[0], 'new_kwargs') or []
-    for d in defs:
-      if isinstance(d, tuple):
-        fresh = False
-        continue
-      t = core.norm(d)
-      if not (isinstance(d, ast.Dict) and not d.keys or t in (
-          'f.keywords.copy()', 'dict(f.keywords)', 'dict(**f.keywords)')):
-        fresh = False
-  rep.check(ok and fresh and bool(defs), 'CALL-PARTIAL', '%s:fresh-keyword-copy' % cc.site,
+    ui, ri = nid(upd[0]), nid(rc)
+    dis = [nid(d.value) for d in defs]
+    ok = ui is not None and ri is not None and ri in g_cc.reachable(ui) and all(
+        d is not None and ui in g_cc.reachable(d) and d not in g_cc.reachable(ui)
+        for d in dis)
+    # the stored dictionary itself is never written
+    ok = ok and not any(
+        isinstance(c, ast.Call) and isinstance(c.func, ast.Attribute) and c.func.attr in (
+            'update', 'setdefault', 'pop', 'clear', '__setitem__') and
+        core.norm(c.func.value) == 'f.keywords' for c in core.walk_no_nested(cc.node))
+  rep.check(ok, 'CALL-PARTIAL', '%s:fresh-keyword-copy' % cc.site,
             'call-site keywords must be merged into a fresh copy of the '
             'partial\'s keywords (stored first, call-site wins); updating the '
             'stored dict mutates the partial',
-            {'reaching_definitions': [core.norm(d) if not isinstance(d, tuple)
-                                      else str(d[0]) for d in defs]},
+            {'definitions': alts, 'updates': [core.norm(u) for u in upd]},
             line=upd[0].lineno if upd else cc.node.lineno,
             witness='same partial called twice, second call omits the keyword')
-  # stored keywords copied when present
-  has_copy = any(not isinstance(d, tuple) and 'f.keywords' in core.norm(d)
-                 for d in defs)
+  has_copy = any('f.keywords' in t for t in alts)
   rep.check(has_copy, 'CALL-PARTIAL', '%s:stored-keywords-kept' % cc.site,
             'the partial\'s stored keywords must be part of the merged keywords',
-            {}, line=rec[0].lineno)
+            {}, line=rc.lineno)
 
   # ---------------------------------------------------------------- CALL-OPTS
   ok = False
